@@ -39,6 +39,8 @@ type World struct {
 	nseg   int
 	Probes [][]float32
 	XOpts  ExtractOpts
+	// LargeDen, when non-zero, makes 1 batch in LargeDen a large one (default 60)
+	LargeDen int
 }
 
 var chunkModes = []uint32{1, 2, 3, 5, 7, 64, 1024, 1025, 1026}
@@ -90,7 +92,16 @@ var batchSizes = []int{0, 1, 1, 2, 2, 3, 3, 5, 8, 13, 20, 40}
 
 func (w *World) genBatchSize() int {
 	c := w.r.ch
-	if c.Prob(1, 60, "batch.large") {
+	den := w.LargeDen
+	if den == 0 {
+		den = 60
+	}
+	if c.Prob(1, den, "batch.large") {
+		if w.LargeDen != 0 && c.Bool("batch.verylarge") {
+			// postings lists beyond 1024 hits: chunk modes 1025/1026 then depend on
+			// the cardinality, before and after deletions
+			return 1030 + c.Choose(900, "batch.largeN")
+		}
 		return 300 + c.Choose(1300, "batch.largeN")
 	}
 	return batchSizes[c.Choose(len(batchSizes), "batch.size")]
